@@ -1377,3 +1377,278 @@ Qed.
 Lemma in_library_depends_on_header_only L1 L2 e a :
   l_library L1 = l_library L2 -> in_library_check L1 e a = in_library_check L2 e a.
 Proof. intros H. unfold in_library_check. rewrite H. reflexivity. Qed.
+
+(* ------------------------------------------------------------------ [checkable] is decidable: a boolean
+   checker, sound for [well_valued] / [checkable], so that the premise of the seeded-fault theorems can be
+   ESTABLISHED for concrete schemas by kernel evaluation (Proofs/C14Ex_*.v) *)
+
+Definition not_flag (e : lentry) (a : str) : bool :=
+  match dict_get a (le_attrs e) with Some VFlag => false | _ => true end.
+
+Lemma not_flag_sound e a : not_flag e a = true -> dict_get a (le_attrs e) <> Some VFlag.
+Proof. unfold not_flag. destruct (dict_get a (le_attrs e)) as [[|s]|]; intros H; congruence. Qed.
+
+Definition versions_parseb (fx : fixes) (E : env) (L : lschema) (e : lentry) (a : str) : bool :=
+  match dict_get a (le_attrs e) with
+  | Some (VStr s) =>
+      if mem_str s (versions_for E (entry_library fx L e)) then
+        match schema_version_for_library L (entry_library fx L e) with
+        | Some (c :: lv') => is_ok (parse_version (c :: lv')) && is_ok (parse_version s)
+        | _ => true
+        end
+      else true
+  | _ => true
+  end.
+
+Lemma is_ok_true {A} (r : res A) : is_ok r = true -> exists v, r = Ok v.
+Proof. destruct r; [eexists; reflexivity|discriminate]. Qed.
+
+Lemma versions_parseb_sound fx E L e a : versions_parseb fx E L e a = true -> versions_parse fx E L e a.
+Proof.
+  unfold versions_parseb, versions_parse. intros H s lv Hd Hin Hl Hne. rewrite Hd in H.
+  apply mem_str_true_iff in Hin. rewrite Hin, Hl in H. destruct lv as [|c lv']; [congruence|].
+  apply andb_true_iff in H as [H1 H2]. split; apply is_ok_true; assumption.
+Qed.
+
+Definition old_id_has_valueb (fx : fixes) (I : idenv) (e : lentry) : bool :=
+  match tag_library_key fx e with
+  | Some k => match dict_get k (id_prev I) with
+              | Some Lp => match lookup Lp (le_sec e) (le_name e) with
+                           | Some oe => match dict_get HedKey_HedID (le_attrs oe) with
+                                        | Some VFlag => false
+                                        | _ => true
+                                        end
+                           | None => true
+                           end
+              | None => true
+              end
+  | None => true
+  end.
+
+Lemma old_id_has_valueb_sound fx I e : old_id_has_valueb fx I e = true -> old_id_has_value fx I e.
+Proof.
+  unfold old_id_has_valueb, old_id_has_value. intros H k Lp oe Hk Hp Hl. rewrite Hk, Hp, Hl in H.
+  destruct (dict_get HedKey_HedID (le_attrs oe)) as [[|s]|]; congruence.
+Qed.
+
+Definition item_section (sec : section) : bool :=
+  match sec with SecTags | SecUnitClasses | SecValueClasses => true | _ => false end.
+
+Definition applicableb (fx : fixes) (E : env) (I : idenv) (L : lschema) (v : validator) (e : lentry) (a : str)
+  : bool :=
+  match v with
+  | V_tag_is_placeholder_check => section_eqb (le_sec e) SecTags
+  | V_item_exists_check sec => not_flag e a && item_section sec
+  | V_tag_is_deprecated_check => versions_parseb fx E L e a
+  | V_unit_exists => section_eqb (le_sec e) SecUnitClasses && not_flag e a
+  | V_allowed_characters_check => not_flag e a
+  | V_verify_tag_id => not_flag e a && old_id_has_valueb fx I e
+  | V_tag_exists_base_schema_check => match dict_get a (le_attrs e) with None => true | Some _ => false end
+  | V_conversion_factor | V_in_library_check | V_attribute_is_deprecated | V_is_numeric_value => true
+  end.
+
+Lemma section_eqb_true a b : section_eqb a b = true -> a = b.
+Proof. destruct a, b; cbn; congruence. Qed.
+
+Lemma applicableb_sound fx E I L v e a : applicableb fx E I L v e a = true -> applicable fx E I L v e a.
+Proof.
+  destruct v; cbn [applicableb applicable]; intros H; try exact Logic.I.
+  - apply section_eqb_true; exact H.
+  - apply andb_true_iff in H as [H1 H2]. split; [apply not_flag_sound; exact H1|].
+    destruct sec; cbn in H2; try discriminate; tauto.
+  - apply versions_parseb_sound; exact H.
+  - apply andb_true_iff in H as [H1 H2]. split; [apply section_eqb_true; exact H1|apply not_flag_sound; exact H2].
+  - apply not_flag_sound; exact H.
+  - apply andb_true_iff in H as [H1 H2]. split; [apply not_flag_sound; exact H1|apply old_id_has_valueb_sound; exact H2].
+  - destruct (dict_get a (le_attrs e)); [discriminate|reflexivity].
+Qed.
+
+Definition well_valuedb (fx : fixes) (E : env) (I : idenv) (L : lschema) : bool :=
+  forallb (fun sec =>
+             forallb (fun e =>
+                        forallb (fun kv => skip_attribute fx e (fst kv)
+                                           || forallb (fun v => applicableb fx E I L v e (fst kv))
+                                                      (get_validators L (fst kv)))
+                                (le_attrs e))
+                     (section_values L sec))
+          all_sections.
+
+Lemma well_valuedb_sound fx E I L : well_valuedb fx E I L = true -> well_valued fx E I L.
+Proof.
+  unfold well_valuedb, well_valued. intros H sec e a val v He Ha Hsk Hv.
+  rewrite forallb_forall in H. specialize (H sec (in_all_sections sec)).
+  rewrite forallb_forall in H. specialize (H e He).
+  rewrite forallb_forall in H. specialize (H (a, val) Ha). cbn [fst] in H.
+  rewrite Hsk in H. cbn [orb] in H. rewrite forallb_forall in H.
+  apply applicableb_sound. exact (H v Hv).
+Qed.
+
+(* one pass over a raw schema: load it, initialise the id validator, run the check with warnings on and decide
+   [well_valued] -- the error-severity issues and the verdict of the checker *)
+Definition evaluate (E : env) (S : rschema) : res (list issue * bool) :=
+  let* L := load E S in
+  let* ide := id_validator_init E L in
+  let* pre := check_if_prerelease_version E true L in
+  let* at_ := check_attributes fixed_all E ide true L in
+  Ok (filter is_error (pre ++ at_ ++ check_duplicate_names true L), well_valuedb fixed_all E ide L).
+
+Lemma evaluate_sound E S errs :
+  evaluate E S = Ok (errs, true) ->
+  errors_of (check_compliance fixed_all E true S) = Ok errs
+  /\ exists L, load E S = Ok L /\ checkable E L.
+Proof.
+  unfold evaluate, check_compliance, check_loaded.
+  destruct (load E S) as [L|]; cbn [bind]; [|discriminate].
+  destruct (id_validator_init E L) as [I|] eqn:HI; cbn [bind]; [|discriminate].
+  destruct (check_if_prerelease_version E true L) as [pre|] eqn:Hp; cbn [bind]; [|discriminate].
+  destruct (check_attributes fixed_all E I true L) as [at_|]; cbn [bind errors_of]; [|discriminate].
+  intros H. inversion H as [[H1 H2]]. split; [reflexivity|].
+  exists L. split; [reflexivity|]. exists I, pre. repeat split; try assumption.
+  apply well_valuedb_sound; exact H2.
+Qed.
+
+(* finding a visited entry by name *)
+Definition find_entry (L : lschema) (sec : section) (name : str) : option lentry :=
+  find (fun e => str_eqb (le_name e) name) (section_values L sec).
+
+Lemma find_entry_in L sec name e : find_entry L sec name = Some e -> In e (section_values L sec).
+Proof. unfold find_entry. intros H. apply find_some in H. tauto. Qed.
+
+(* ------------------------------------------------------------------ a one-attribute seed preserves [checkable]
+   L' is L with ONE entry e of section sec replaced by e', which differs from e in the single attribute a
+   (added, or its value changed); header and attribute definitions are untouched.  Then the premise of the
+   seeded-fault theorems carries over from the compliant schema to the seeded one, provided the seeded
+   attribute itself is either undeclared for the section (it is then not looked at) or meets the rules written
+   for it (a string value on an entry of the right class), and the entry's own inLibrary value is unchanged
+   (the deprecation and hedId rules of the OTHER attributes of the entry consult it). *)
+
+Record same_frame (L L' : lschema) : Prop := mkFrame {
+  sf_version : l_version L' = l_version L;
+  sf_library : l_library L' = l_library L;
+  sf_with_standard : l_with_standard L' = l_with_standard L;
+  sf_is83 : l_is83 L' = l_is83 L;
+  sf_attrs : l_attrs L' = l_attrs L
+}.
+
+Lemma same_frame_validators L L' a : same_frame L L' -> get_validators L' a = get_validators L a.
+Proof.
+  intros [Hv Hl Hw H8 Ha]. unfold get_validators. rewrite H8. unfold lookup. cbn [section_all]. rewrite Ha. reflexivity.
+Qed.
+
+Lemma same_frame_init E L L' : same_frame L L' -> id_validator_init E L' = id_validator_init E L.
+Proof.
+  intros [Hv Hl Hw H8 Ha]. unfold id_validator_init, id_standard_step. rewrite Hv, Hl, Hw. reflexivity.
+Qed.
+
+Lemma same_frame_prerelease E w L L' :
+  same_frame L L' -> check_if_prerelease_version E w L' = check_if_prerelease_version E w L.
+Proof. intros [Hv Hl Hw H8 Ha]. unfold check_if_prerelease_version. rewrite Hv, Hl, Hw. reflexivity. Qed.
+
+Lemma same_frame_entry_library L L' e e' :
+  same_frame L L' ->
+  dict_get HedKey_InLibrary (le_attrs e') = dict_get HedKey_InLibrary (le_attrs e) ->
+  entry_library fixed_all L' e' = entry_library fixed_all L e.
+Proof.
+  intros [Hv Hl Hw H8 Ha] Hi. unfold entry_library, library_value. cbn [fx_own_library fixed_all].
+  rewrite Hi, Hw, Hl. reflexivity.
+Qed.
+
+Lemma same_frame_schema_version L L' lib :
+  same_frame L L' -> schema_version_for_library L' lib = schema_version_for_library L lib.
+Proof. intros [Hv Hl Hw H8 Ha]. unfold schema_version_for_library. rewrite Hv, Hl, Hw. reflexivity. Qed.
+
+Lemma applicable_ext E I L L' v e e' a0 :
+  same_frame L L' -> le_sec e' = le_sec e -> le_name e' = le_name e ->
+  dict_get a0 (le_attrs e') = dict_get a0 (le_attrs e) ->
+  dict_get HedKey_InLibrary (le_attrs e') = dict_get HedKey_InLibrary (le_attrs e) ->
+  applicable fixed_all E I L v e a0 -> applicable fixed_all E I L' v e' a0.
+Proof.
+  intros F Hs Hn Hd Hi. destruct v; cbn [applicable]; rewrite ?Hs, ?Hd; try tauto.
+  - unfold versions_parse. rewrite Hd, (same_frame_entry_library L L' e e' F Hi), (same_frame_schema_version L L' _ F).
+    tauto.
+  - intros [H1 H2]. split; [exact H1|]. unfold old_id_has_value, tag_library_key, library_value in *.
+    cbn [fx_own_library fixed_all] in *. rewrite Hi, Hs, Hn. exact H2.
+Qed.
+
+Definition one_attribute_seed (L L' : lschema) (sec : section) (e e' : lentry) (a : str) : Prop :=
+  same_frame L L' /\ le_sec e' = le_sec e /\ le_name e' = le_name e
+  /\ (forall s x, In x (section_values L' s) -> In x (section_values L s) \/ (s = sec /\ x = e'))
+  /\ In e (section_values L sec)
+  /\ (forall a0, a0 <> a -> dict_get a0 (le_attrs e') = dict_get a0 (le_attrs e))
+  /\ (forall a0 v0, In (a0, v0) (le_attrs e') -> a0 = a \/ exists v1, In (a0, v1) (le_attrs e))
+  /\ (forall a0, a0 <> a -> skip_attribute fixed_all e' a0 = false -> skip_attribute fixed_all e a0 = false).
+
+Lemma seed_preserves_checkable E L L' sec e e' a :
+  checkable E L -> one_attribute_seed L L' sec e e' a ->
+  dict_get HedKey_InLibrary (le_attrs e') = dict_get HedKey_InLibrary (le_attrs e) ->
+  (skip_attribute fixed_all e' a = true
+   \/ forall I v, id_validator_init E L = Ok I -> In v (get_validators L a) -> applicable fixed_all E I L' v e' a) ->
+  checkable E L'.
+Proof.
+  intros (I & pre & HI & Hp & W) (F & Hs & Hn & Hvals & He & Hsame & Hkeys & Hskip) Hlib Hseed.
+  exists I, pre. rewrite (same_frame_init E L L' F), (same_frame_prerelease E true L L' F).
+  split; [exact HI|]. split; [exact Hp|].
+  intros s x a0 val v Hx Ha0 Hsk Hv. rewrite (same_frame_validators L L' a0 F) in Hv.
+  destruct (Hvals s x Hx) as [Hold|[-> ->]].
+  - eapply applicable_ext; try reflexivity; [exact F|]. exact (W s x a0 val v Hold Ha0 Hsk Hv).
+  - destruct (str_eqb a0 a) eqn:Ea.
+    + apply str_eqb_spec in Ea; subst a0. destruct Hseed as [Hu|Ha]; [congruence|]. exact (Ha I v HI Hv).
+    + apply str_eqb_false_neq in Ea.
+      destruct (Hkeys a0 val Ha0) as [->|(v1 & Hin)]; [congruence|].
+      eapply (applicable_ext E I L L' v e e' a0 F Hs Hn (Hsame a0 Ea) Hlib).
+      exact (W sec e a0 v1 v He Hin (Hskip a0 Ea Hsk) Hv).
+Qed.
+
+(* ------------------------------------------------------------------ which attributes carry the existence /
+   unit rule in a concrete loaded schema (decidable; evaluated for bundled schemas in Proofs/C14Ex_*.v) *)
+Definition has_item_rule (L : lschema) (a : str) (tsec : section) : bool :=
+  existsb (fun v => match v with V_item_exists_check s => section_eqb s tsec | _ => false end) (get_validators L a).
+
+Lemma has_item_rule_sound L a tsec :
+  has_item_rule L a tsec = true -> In (V_item_exists_check tsec) (get_validators L a).
+Proof.
+  unfold has_item_rule. intros H. apply existsb_exists in H as (v & Hv & Hm).
+  destruct v; try discriminate. apply section_eqb_true in Hm. subst. exact Hv.
+Qed.
+
+Definition has_unit_rule (L : lschema) (a : str) : bool :=
+  existsb (fun v => match v with V_unit_exists => true | _ => false end) (get_validators L a).
+
+Lemma has_unit_rule_sound L a : has_unit_rule L a = true -> In V_unit_exists (get_validators L a).
+Proof.
+  unfold has_unit_rule. intros H. apply existsb_exists in H as (v & Hv & Hm). destruct v; try discriminate. exact Hv.
+Qed.
+
+(* the four reference attributes and defaultUnits carry their rules *)
+Definition reference_rules_present (L : lschema) : bool :=
+  has_item_rule L HedKey_SuggestedTag SecTags && has_item_rule L HedKey_RelatedTag SecTags
+  && has_item_rule L HedKey_UnitClass SecUnitClasses && has_item_rule L HedKey_ValueClass SecValueClasses
+  && has_unit_rule L HedKey_DefaultUnits.
+
+Lemma reference_rules_present_sound L :
+  reference_rules_present L = true ->
+  In (V_item_exists_check SecTags) (get_validators L HedKey_SuggestedTag)
+  /\ In (V_item_exists_check SecTags) (get_validators L HedKey_RelatedTag)
+  /\ In (V_item_exists_check SecUnitClasses) (get_validators L HedKey_UnitClass)
+  /\ In (V_item_exists_check SecValueClasses) (get_validators L HedKey_ValueClass)
+  /\ In V_unit_exists (get_validators L HedKey_DefaultUnits).
+Proof.
+  unfold reference_rules_present. rewrite !andb_true_iff. intros ((((H1 & H2) & H3) & H4) & H5).
+  repeat split; try (apply has_item_rule_sound; assumption). apply has_unit_rule_sound; assumption.
+Qed.
+
+Definition loaded_has_reference_rules (E : env) (S : rschema) : bool :=
+  match load E S with Ok L => reference_rules_present L | Exn _ => false end.
+
+Lemma loaded_has_reference_rules_sound E S :
+  loaded_has_reference_rules E S = true ->
+  exists L, load E S = Ok L
+  /\ In (V_item_exists_check SecTags) (get_validators L HedKey_SuggestedTag)
+  /\ In (V_item_exists_check SecTags) (get_validators L HedKey_RelatedTag)
+  /\ In (V_item_exists_check SecUnitClasses) (get_validators L HedKey_UnitClass)
+  /\ In (V_item_exists_check SecValueClasses) (get_validators L HedKey_ValueClass)
+  /\ In V_unit_exists (get_validators L HedKey_DefaultUnits).
+Proof.
+  unfold loaded_has_reference_rules. destruct (load E S) as [L|]; [|discriminate]. intros H.
+  exists L. split; [reflexivity|]. apply reference_rules_present_sound; exact H.
+Qed.
